@@ -130,6 +130,11 @@ func cmdCheck(args []string) int {
 	}
 	sv := NewSolver(filepath.Join(*verif, ".cache"), filepath.Join(os.TempDir(), fmt.Sprintf("govc-work-%d", os.Getpid())), timeout, seed)
 	defer os.RemoveAll(sv.workDir)
+	hintsFile := filepath.Join(*verif, "hints.json")
+	sv.LoadHints(hintsFile)
+	if os.Getenv("GOVC_WRITE_HINTS") != "" {
+		defer sv.SaveHints(hintsFile)
+	}
 	if *tier == "thorough" || os.Getenv("GOVC_NOCACHE") != "" {
 		sv.noCache = true
 	}
